@@ -4,6 +4,7 @@ import json
 import os
 import re
 import shutil
+import subprocess
 
 from vlib import core, detgen, pkgrun
 from vlib.sexp import Q, dump
@@ -109,6 +110,13 @@ def special_cases(rng):
                "payload": ["aliasdup", ["alias", ["a", "id"], ["b", "id"]], ["path", "id"]]})
     sp.append({"kind": "aliasdup", "files": {"t.go": rest % "{a:id},{b:name}"}, "args": ["rest", "-type=ClientA"],
                "payload": ["aliasdup", ["alias", ["a", "id"], ["b", "name"]], ["path", "id"]]})
+    rq = ("package rc\n\nimport (\n\t\"context\"\n\t\"net/http\"\n\n\t\"github.com/lopolopen/shoot\"\n)\n\ntype Req struct {\n\tName string\n\tSize int\n}\n\n"
+          "type ClientA interface {\n\tshoot.RestClient[ClientA]\n\n\t//shoot: Get(\"/users\")\n\tM0(ctx context.Context, req Req) (*http.Response, error)\n}\n")
+    alt = "//go:build ignore\n\npackage rc\n\ntype Req struct {\n\tOther string\n}\n"
+    sp.append({"kind": "gather", "files": {"t.go": rq, "alt.go": alt}, "args": ["rest", "-type=ClientA"], "nexec": 24,
+               "payload": ["gather", ["files", ["t.go", "Name", "Size"], ["alt.go", "Other"]]]})
+    sp.append({"kind": "gather", "files": {"t.go": rq, "alt.go": "//go:build ignore\n\npackage rc\n\ntype Other struct {\n\tX string\n}\n"},
+               "args": ["rest", "-type=ClientA"], "nexec": 8, "payload": ["gather", ["files", ["t.go", "Name", "Size"], ["alt.go"]]]})
     return sp
 
 
@@ -155,10 +163,28 @@ class Dir:
             with open(p, "w") as f:
                 f.write(content.replace("@DEST@", "%s/c/dest" % pkgrun.MOD))
 
-    def shoot(self, args, cwd=None):
-        p = core.run([self.ctx.shoot()] + args, cwd=cwd or self.cwd, timeout=120)
+    def shoot(self, args, cwd=None, env=None, umask=None, via_go_generate=False):
+        cmd = [self.ctx.shoot()] + args
+        if via_go_generate:
+            # a file without declarations that carries the directive; `go generate` runs it in the package directory
+            with open(os.path.join(cwd or self.cwd, "zz_gen.go"), "w") as f:
+                f.write("package %s\n\n//go:generate %s\n" % (self.pkgname(cwd or self.cwd), " ".join(cmd)))
+            cmd = ["go", "generate", "."]
+        e = core.goenv()
+        e.update(env or {})
+        p = subprocess.run(cmd, cwd=cwd or self.cwd, env=e, stdout=subprocess.PIPE, stderr=subprocess.PIPE, text=True, errors="replace",
+                           timeout=600, preexec_fn=(lambda: os.umask(umask)) if umask is not None else None)
         self.log.append({"args": args, "rc": p.returncode, "stderr": p.stderr[-400:]})
         return p
+
+    @staticmethod
+    def pkgname(d):
+        for fn in sorted(os.listdir(d)):
+            if fn.endswith(".go"):
+                m = re.search(r"^package (\w+)", open(os.path.join(d, fn)).read(), re.M)
+                if m:
+                    return m.group(1)
+        return "main"
 
     def setup(self):
         for r in self.pk.get("setup", []):
@@ -280,7 +306,28 @@ def history(ctx, roots, job):
     l2.shoot(args)
     obs["location"] = l2.outputs() == fresh[0]
     obs["cmd"] = "shoot " + " ".join(args)
+    obs["fresh0"] = fresh[0]
     return obs
+
+
+def env_legs(ctx, roots, job, fresh0, alt):
+    """the environment dimension: another build cache, HOME, TMPDIR, GOFLAGS and umask; and the same command run by `go generate`"""
+    pk, mode, cid = job["pk"], job["mode"], job["id"]
+    args = mode_args(pk, mode)
+    out = {}
+    e = Dir(ctx, roots[0], "%s_e" % cid, pk)
+    e.setup()
+    env = {"GOCACHE": alt["cache"], "HOME": alt["home"], "TMPDIR": alt["tmp"], "GOFLAGS": "-mod=mod -trimpath",
+           "GOMODCACHE": alt["modcache"], "GOPATH": alt["gopath"], "LANG": "C", "TZ": "Pacific/Auckland"}
+    p = e.shoot(args, env=env, umask=0o077)
+    out["env"] = p.returncode == 0 and e.outputs() == fresh0
+    out["env-note"] = e.log[-1]["stderr"][-200:] if p.returncode != 0 else ""
+    g = Dir(ctx, roots[0], "%s_g" % cid, pk)
+    g.setup()
+    p = g.shoot(args, via_go_generate=True)
+    out["gogen"] = p.returncode == 0 and g.outputs() == fresh0
+    out["gogen-note"] = g.log[-1]["stderr"][-200:] if p.returncode != 0 else ""
+    return out
 
 
 def run_special(ctx, root, sp, idx, nexec):
@@ -319,8 +366,19 @@ def run(ctx, obl):
             jobs.append({"id": "p%d%s" % (i, {"sep": "s", "aio": "a", "star": "t"}[mode]), "pk": pk, "edited": pke, "mode": mode,
                          "nexec": max(nexec, pk.get("nexec", 0))})
     results = core.pmap(lambda j: history(ctx, roots, j), jobs)
+    # environment legs for a few jobs (sequential: they share one alternative, initially empty, build cache)
+    gp = core.run(["go", "env", "GOMODCACHE", "GOPATH"]).stdout.split()
+    alt = {"cache": ctx.sub("alt-gocache"), "home": ctx.sub("alt-home"), "tmp": ctx.sub("alt-tmp"), "modcache": gp[0], "gopath": gp[1]}
+    env_res = {}
+    picked, seen_cmd = [], set()
+    for job, ob in zip(jobs, results):
+        if "failed" not in ob and (job["pk"]["cmd"], job["mode"]) not in seen_cmd and len(picked) < ctx.n(4, 12):
+            seen_cmd.add((job["pk"]["cmd"], job["mode"]))
+            picked.append((job, ob))
+    for job, ob in picked:
+        env_res[job["id"]] = env_legs(ctx, roots, job, ob["fresh0"], alt)
     specials = special_cases(rng)
-    sres = core.pmap(lambda t: run_special(ctx, roots[0], t[1], t[0], max(nexec, 8)), list(enumerate(specials)))
+    sres = core.pmap(lambda t: run_special(ctx, roots[0], t[1], t[0], max(nexec, 8, t[1].get("nexec", 0))), list(enumerate(specials)))
 
     cases, impl = [], {}
     extra = {}
@@ -349,6 +407,13 @@ def run(ctx, obl):
         for k in ("execs", "delete", "location"):
             im[k] = tf(ob[k])
         extra[cid] = ["execs", "delete", "location"]
+        if cid in env_res:
+            for k in ("env", "gogen"):
+                im[k] = tf(env_res[cid][k])
+                extra[cid].append(k)
+                res.hist("env-legs", k)
+                if env_res[cid][k + "-note"]:
+                    ctx.notes.append("%s %s: %s" % (cid, k, env_res[cid][k + "-note"]))
         cases.append({"id": cid, "sexp": sexp, "cmd": ob["cmd"], "key": cid, "files": json.dumps(pk["files"]),
                       "edited": json.dumps(pke["files"]), "ntypes": len(pk["types"])})
         impl[cid] = im
@@ -363,7 +428,11 @@ def run(ctx, obl):
         cid = "s%d" % idx
         if sp["kind"] == "getgofile" and any(rc != 0 for rc, _ in outs):
             raise core.InfraError("special case %s does not generate: %s" % (sp["kind"], sp["args"]))
-        if sp["kind"] == "getgofile":
+        if sp["kind"] == "gather":
+            if any(rc != 0 for rc, _ in outs):
+                raise core.InfraError("special case %s does not generate: %s" % (sp["kind"], sp["args"]))
+            im = {"variants": str(len(set(tuple(sorted(o.items())) for _, o in outs)))}
+        elif sp["kind"] == "getgofile":
             seen = sorted(set(fn.split(".shoot")[0] + ".go" for _, o in outs for fn in o))
             im = {"gofile": ",".join(seen)}
         else:
@@ -389,6 +458,9 @@ def run(ctx, obl):
             allowed = set(m["model"]["gofile"].split(","))
             if got <= allowed and (len(got) > 1 or impl[c["id"]]["gofile"] != m["spec"]["gofile"]):
                 impl[c["id"]]["gofile"] = m["model"]["gofile"]
+        elif c.get("special") == "gather":
+            if 1 < int(impl[c["id"]]["variants"]) <= int(m["model"]["variants"]):
+                impl[c["id"]]["variants"] = m["model"]["variants"]
         elif c.get("special") == "aliasdup":
             nmodel = len(m["model"].pop("pathparams").split("|"))
             m["spec"].pop("pathparams")
@@ -419,7 +491,8 @@ def run(ctx, obl):
     res.rule = ("generated packages (new: struct trees with cross embeds, -getset/-json, embedded types declared before or after their embedders; map incl. chains of "
                 "nested embedded pointer structs; enum; rest) x modes (-type=list, -file=, -type=* when a go:generate line is present) x histories: fresh in N "
                 "directories, repeat in each, delete outputs + rerun, source edit with stale output in place vs the edited sources in two clean directories, "
-                "separate -> all-in-one -> separate, a second absolute location of different depth; N = %d process executions per point; written files compared "
+                "separate -> all-in-one -> separate, a second absolute location of different depth; for one job per (sub-command, mode) also another environment "
+                "(empty GOCACHE, other HOME/TMPDIR/TZ/LANG, GOFLAGS=-mod=mod -trimpath, umask 077) and the same command run through `go generate`; N = %d process executions per point; written files compared "
                 "byte for byte. Plus the conditional map-range sites (type parameter named like the requested type; two parameters aliased to one placeholder; "
                 "success-message order) with their well-formed twins. non-trivial = at least two types / files" % nexec)
     res.assumptions = ["the second location uses the same module path (a different module path legitimately changes import paths of map output)",
